@@ -315,6 +315,97 @@ def corpus():
     return cases
 
 
+def gen_batch(rng):
+    """One module, designer names chosen around the names of one batch: an array, an instance bundle or a bundle instance."""
+    kind = rng.choice(["array", "ibundle", "bundle"])
+    base = rng.choice(["a", "a_", "a_x", "b"])
+    members = rng.sample(["x", "x_", "x__", "y", "x_y", "y_", "0", "1"], rng.randint(1, 4))
+    if kind == "array":
+        parts = [str(k) for k in range(rng.randint(1, 4))]
+    elif kind == "ibundle":
+        parts = [m for m in members if not m[0].isdigit()] or ["x"]
+    else:
+        # a bundle with scalar members and one sub-bundle: leaves in declaration order, sub-bundles after the signals
+        parts = [m for m in members if not m[0].isdigit()] or ["x"]
+    sub = None
+    if kind == "bundle" and rng.random() < 0.6:
+        sub = {"n": rng.choice(["y", "x", "s"]), "members": rng.sample(["x", "x_", "z"], rng.randint(1, 2))}
+        if sub["n"] in parts:
+            parts.remove(sub["n"])
+        if not parts:
+            parts = ["w"]
+    invented = [f"{base}_{p}" for p in parts] + ([f"{base}_{sub['n']}_{q}" for q in sub["members"]] if sub else [])
+    pool = sorted({x + "_" * k for x in invented for k in range(3)} | {base + "_", "s", "t"})
+    designer = [n for n in rng.sample(pool, rng.randint(0, min(6, len(pool)))) if n != base]
+    long_pad = rng.choice([0, 0, 0, 505, 506, 507, 508])
+    return {"kind": kind, "base": base + "q" * long_pad, "parts": parts, "sub": sub, "designer": [d.replace(base, base + "q" * long_pad, 1) if d.startswith(base) else d for d in designer]}
+
+
+def impl_batch(case):
+    import common as _c
+    h = _c.repo_env()
+    m = h.Module(name="Batch")
+    for n in case["designer"]:
+        m.add(h.Signal(name=n))
+    R = h.R(r=1)
+    m.add(h.Signal(name="zz_p"))
+    m.add(h.Signal(name="zz_n"))
+    try:
+        if case["kind"] == "array":
+            m.add(h.InstanceArray(R, len(case["parts"]))(p=m.zz_p, n=m.zz_n), name=case["base"])
+        else:
+            b = h.Bundle(name="Bt")
+            for p in case["parts"]:
+                b.add(h.Signal(name=p))
+            if case["sub"]:
+                sb = h.Bundle(name="Sb")
+                for q in case["sub"]["members"]:
+                    sb.add(h.Signal(name=q))
+                b.add(sb(), name=case["sub"]["n"])
+            if case["kind"] == "ibundle":
+                IB = h.InstanceBundleType(name="IBt", bundle=b)
+                m.add(IB(R)(p=m.zz_p, n=m.zz_n), name=case["base"])
+            else:
+                m.add(b(), name=case["base"])
+        before = set(m.namespace)
+        h.elaborate(m)
+    except Exception as ex:  # noqa
+        return {"raise": f"{type(ex).__name__}: {str(ex)[:120]}"}
+    new = [n for n in m.namespace if n not in before]
+    kept = all(n in m.namespace and isinstance(m.namespace[n], h.Signal) for n in case["designer"])
+    return {"names": new, "designer_kept": kept, "count": len(m.namespace)}
+
+
+def line_batch(case):
+    parts = [[case["base"], p] for p in case["parts"]]
+    if case["sub"]:
+        parts += [[case["base"], case["sub"]["n"] + "_" + q] for q in case["sub"]["members"]]
+    return {"prop": "NAMES", "op": "invent", "ns": case["designer"] + ["zz_p", "zz_n"], "batch": parts, "maxlen": MAXLEN}
+
+
+def judge_batch(case, im, mo):
+    if "raise" in im:
+        if "fail" not in mo:
+            # raising is an accepted way out of a clash; what may not happen is an instance bundle over nested bundles being accepted
+            yield ("corr", f"refused although fresh names exist: {im['raise']}")
+        return
+    names = im["names"]
+    if not im["designer_kept"]:
+        yield ("pred", f"a designer signal was replaced: designer {case['designer']}, namespace now holds {names}")
+    if len(set(names)) != len(names) or set(names) & set(case["designer"]):
+        yield ("pred", f"invented names clash: {names} next to {case['designer']}")
+    nbatch = len(case["parts"]) + (len(case["sub"]["members"]) if case["sub"] else 0)
+    if len(names) != nbatch:
+        yield ("pred", f"{nbatch} things to name, {len(names)} new names in the module: {names}")
+    if "fail" in mo:
+        yield ("corr", f"the model finds no fresh name, the implementation does: {names}")
+    elif names != mo["names"]:
+        yield ("corr", f"invented names {names} vs model {mo['names']}")
+
+
+SB = common.Stream("batch_names", impl_batch, line_batch, judge_batch, chunk=16)
+
+
 def descriptors(partition, devices, topports):
     """Name-free form of a partition: sorted multiset of sorted descriptor lists."""
     kind = {dv["path"]: dv["kind"] for dv in devices}
@@ -392,6 +483,8 @@ def run(ctx):
             if a != b:
                 rep.fail("pred", case, {"why": "nets merged or split because of a name", "renamed": a[:6], "friendly": b[:6]})
     rep.extra["stats"] = stats
+    # the model's batch naming (inventAll, theorem inventAll_spec) against the names the passes really choose
+    SB.run(ctx, [gen_batch(rng) for _ in range(300 if ctx.quick else 6000)])
     if cases:
         rep.sample({"renamed_modules": [[m["name"], [s["n"] for s in m["sigs"]], [i["n"] for i in m["insts"]]] for m in cases[0]["design"]["modules"]]})
 
